@@ -15,7 +15,7 @@ from unittest.mock import patch
 import numpy as np
 
 import optrun
-from common import c_bool, c_str
+from common import CoqEvalError, c_bool, c_str
 
 from golem.core.dag.graph import Graph
 from golem.core.optimisers.fitness import MultiObjFitness, SingleObjFitness
@@ -32,7 +32,7 @@ from golem.utilities.utilities import urandom_mock
 REQ = ['Serial.HistoryCodec']
 FN = 'fun o => [agree o; holds_b o; guard_b o]'
 DEPTH = 400
-PRE = 'Local Open Scope nat_scope.\n'
+PRE = 'Local Open Scope nat_scope.\nDefinition n (x : N) : nat := N.to_nat x.\n'
 MISSING_META = {'MISSING_INDIVIDUAL': 'This individual could not be restored during `OptHistory.load()`'}
 REPO = os.environ.get('VERIF_REPO', '/repo')
 
@@ -328,30 +328,38 @@ def parse_eind(i, tok, legacy=False):
 # ----------------------------------------------------------------------------------------
 # Coq printers
 # ----------------------------------------------------------------------------------------
+def qn(x):
+    """nat literal; big ones are written in binary (N) and converted during evaluation, because a
+    unary literal costs its value in term size"""
+    x = int(x)
+    assert x >= 0
+    return str(x) if x <= 12 else '(n %d)' % x
+
+
 def q_nats(l):
-    return '[' + ';'.join(str(int(x)) for x in l) + ']' if l else '(@nil nat)'
+    return '[' + ';'.join(qn(x) for x in l) + ']' if l else '(@nil nat)'
 
 
 def q_opt_nat(x):
-    return 'None' if x is None else '(Some %d)' % x
+    return 'None' if x is None else '(Some %s)' % qn(x)
 
 
 def q_ind(r):
     if r['op'] is None:
         op = 'None'
     else:
-        ps = ['(PRef %d)' % p[1] if p[0] == 'r' else '(PStr %d)' % p[1] for p in r['op']['parents']]
-        op = '(Some (mP %d %s %d %s))' % (r['op']['type'], q_nats(r['op']['ops']), r['op']['uid'],
+        ps = ['(PRef %s)' % qn(p[1]) if p[0] == 'r' else '(PStr %s)' % qn(p[1]) for p in r['op']['parents']]
+        op = '(Some (mP %s %s %s %s))' % (qn(r['op']['type']), q_nats(r['op']['ops']), qn(r['op']['uid']),
                                            ('[' + ';'.join(ps) + ']') if ps else '(@nil pref)')
-    return '(mI %d %d %d %d %s %s)' % (r['uid'], r['fit'], r['graph'], r['meta'], q_opt_nat(r['ng']), op)
+    return '(mI %s %s %s %s %s %s)' % (qn(r['uid']), qn(r['fit']), qn(r['graph']), qn(r['meta']), q_opt_nat(r['ng']), op)
 
 
 def q_eind(r):
     if r['op'] is None:
         op = 'None'
     else:
-        op = '(Some (mQ %d %s %d %s))' % (r['op']['type'], q_nats(r['op']['ops']), r['op']['uid'], q_nats(r['op']['parents']))
-    return '(mE %d %d %d %d %s %s)' % (r['uid'], r['fit'], r['graph'], r['meta'], q_opt_nat(r['ng']), op)
+        op = '(Some (mQ %s %s %s %s))' % (qn(r['op']['type']), q_nats(r['op']['ops']), qn(r['op']['uid']), q_nats(r['op']['parents']))
+    return '(mE %s %s %s %s %s %s)' % (qn(r['uid']), qn(r['fit']), qn(r['graph']), qn(r['meta']), q_opt_nat(r['ng']), op)
 
 
 def q_list(items, ty):
@@ -359,7 +367,7 @@ def q_list(items, ty):
 
 
 def q_gen(g):
-    return '(mkGen %d %d %d %s)' % (g['num'], g['label'], g['meta'], q_nats(g['members']))
+    return '(mkGen %s %s %s %s)' % (qn(g['num']), qn(g['label']), qn(g['meta']), q_nats(g['members']))
 
 
 def q_obj(o):
@@ -367,9 +375,9 @@ def q_obj(o):
 
 
 def q_hist(h):
-    return '(mkHist %s %s %s %s %d %d)' % (
+    return '(mkHist %s %s %s %s %s %s)' % (
         q_list([q_ind(r) for r in h['heap']], 'ind pref'), q_obj(h['obj']), q_list([q_gen(g) for g in h['gens']], 'gen'),
-        q_list([q_nats(s) for s in h['snaps']], 'list nat'), h['tuning'], h['dir'])
+        q_list([q_nats(s) for s in h['snaps']], 'list nat'), qn(h['tuning']), qn(h['dir']))
 
 
 def q_ehist(e):
@@ -378,15 +386,15 @@ def q_ehist(e):
         gens = '(ELists %s)' % q_list([q_nats(l) for l in e['gens']['lists']], 'list nat')
     else:
         gens = '(EGens %s)' % q_list([q_gen(g) for g in e['gens']['gens']], 'gen')
-    return '(mkEHist %s %s %s %s %d %d)' % (
+    return '(mkEHist %s %s %s %s %s %s)' % (
         q_list([q_eind(r) for r in e['pool']], 'ind nat'), obj, gens, q_list([q_nats(s) for s in e['arch']], 'list nat'),
-        e['tuning'], e['dir'])
+        qn(e['tuning']), qn(e['dir']))
 
 
 def q_obs(o):
     pre = 'None' if o.get('pre') is None else '(Some %s)' % q_ehist(o['pre'])
-    return '(mkObs %s %s %s %s %s %s %s %d)' % (q_hist(o['mem']), q_ehist(o['json']), q_hist(o['loaded']), q_ehist(o['json2']),
-                                                pre, c_bool(o['text_equal']), c_bool(o['fitness_ok']), DEPTH)
+    return '(mkObs %s %s %s %s %s %s %s %s)' % (q_hist(o['mem']), q_ehist(o['json']), q_hist(o['loaded']), q_ehist(o['json2']),
+                                                pre, c_bool(o['text_equal']), c_bool(o['fitness_ok']), qn(DEPTH))
 
 
 # ----------------------------------------------------------------------------------------
@@ -489,7 +497,7 @@ def dump_case(ind, path, tok=None):
 
 
 def q_dump(d):
-    return '(%s, %d, %s, %s, %s)' % (q_list([q_ind(r) for r in d['heap']], 'ind pref'), d['ref'], q_eind(d['file']), q_ind(d['loaded']),
+    return '(%s, %s, %s, %s, %s)' % (q_list([q_ind(r) for r in d['heap']], 'ind pref'), qn(d['ref']), q_eind(d['file']), q_ind(d['loaded']),
                                      c_bool(d['fitness_ok']))
 
 
@@ -730,19 +738,26 @@ def to_legacy_text(text, plain_lists, rename_paths=True):
     return json.dumps(out, indent=4)
 
 
-def observed_class(path):
-    """what Serializer._get_class resolves a class path to: (module, qualified name) or None"""
+def real_class(path):
+    """what Serializer._get_class resolves a class path to (the object), None when it does not resolve"""
     try:
-        obj = Serializer._get_class({'_class_path': path})
+        return Serializer._get_class({'_class_path': path})
     except Exception:
         return None
-    if obj is None:
+
+
+def observed_class(path):
+    return real_class(path)
+
+
+def import_object(module, qualname):
+    try:
+        obj = importlib.import_module(module)
+        for part in qualname.split('.'):
+            obj = getattr(obj, part)
+        return obj
+    except Exception:
         return None
-    mod = getattr(obj, '__module__', None)
-    qn = getattr(obj, '__qualname__', None)
-    if mod is None or qn is None:
-        return None
-    return [mod, qn]
 
 
 def q_pairs(items):
@@ -750,37 +765,56 @@ def q_pairs(items):
 
 
 def check_legacy_tables(ctx):
+    import re
     cls = list(ser_mod.LEGACY_CLASS_PATHS.items())
     mods = list(ser_mod.LEGACY_MODULE_PATHS.items())
     paths = [k for k, _ in cls] + [v for _, v in cls] + list(LEGACY_OF.values()) + [
         'fedot.core.optimisers.gp_comp.operators.mutation/Mutation', 'fedot.core.dag.graph/Graph',
         'fedot.core.optimisers.graph/OptNode', 'fedot.core.utilities.data_structures/UniqueList',
-        'golem.core.optimisers.graph/OptGraph']
+        'fedot.core.log/default_log', 'fedot.core.adapter.adapter/IdentityAdapter',
+        'golem.core.optimisers.graph/OptGraph', 'fedot.core.dag.fedot.core.dag/X', 'no_such_module/Thing']
     paths = list(dict.fromkeys(paths))
-    cases = ['(%s, %s)' % (c_str(p), ('None' if observed_class(p) is None else '(Some (%s, %s))' % tuple(c_str(x) for x in observed_class(p))))
-             for p in paths]
-    # canary: a wrong resolution
-    cases.append('(%s, (Some (%s, %s)))' % (c_str(cls[0][0]), c_str('golem.core.dag.graph'), c_str('Graph')))
-    ctx.canaries += 1
-    pre = 'Definition obs_cls := %s.\nDefinition obs_mods := %s.\n' % (q_pairs(cls), q_pairs(mods))
-    res = ctx.coq_cases('legacy-paths', REQ, 'fun c => [resolve_agree (fst c) (snd c); tables_agree obs_cls obs_mods]', cases, 2, preamble=pre)
-    if res[-1][0] is False:
-        ctx.canaries_caught += 1
-    for p, (ag, tb) in zip(paths, res[:-1]):
-        obs_c = observed_class(p)
-        ctx.count('legacy-paths', key=p, nontrivial=p.startswith('fedot'), kind=('legacy' if p.startswith('fedot') else 'current'))
-        if not ag:
-            ctx.disagree('legacy-paths', {'path': p, 'observed': obs_c}, 'Serializer._get_class resolves the path differently from the model')
-        if p in ser_mod.LEGACY_CLASS_PATHS and obs_c is None:
+    # the model's resolution, evaluated by Coq; the objects are then compared by identity
+    term = ('List.map (fun p => match resolve_class_path p with Some (m, c) => (m ++ "|" ++ c)%%string | None => "NONE"%%string end) [%s]'
+            % '; '.join(c_str(p) for p in paths))
+    txt = ctx.coq_print(REQ, term)
+    answers = re.findall(r'"([^"]*)"', txt.split('     : ')[0])
+    if len(answers) != len(paths):
+        raise CoqEvalError('cannot read the model resolution of the class paths: %s' % txt[-600:])
+    for p, ans in zip(paths, answers):
+        real = real_class(p)
+        model = None
+        if ans != 'NONE' and '|' in ans:
+            model = import_object(*ans.split('|', 1))
+        ctx.count('legacy-paths', key=p, nontrivial=p.startswith('fedot'), kind=('legacy' if p.startswith('fedot') else 'current'),
+                  resolves=real is not None)
+        if real is not model:
+            ctx.disagree('legacy-paths', {'path': p, 'model': ans, 'real': repr(real)},
+                         'Serializer._get_class resolves the path differently from the model')
+        if p in ser_mod.LEGACY_CLASS_PATHS and real is None:
             ctx.violate('legacy-paths', {'path': p}, 'a key of LEGACY_CLASS_PATHS does not resolve to an existing class')
-    if not res[0][1]:
-        ctx.disagree('legacy-paths', {'class_paths': cls, 'module_paths': mods}, 'the legacy tables of serializer.py differ from the tables of the model')
+    # tables of the implementation = tables of the model; canary: a permuted table must be rejected
+    pre = 'Definition obs_cls := %s.\nDefinition obs_mods := %s.\n' % (q_pairs(cls), q_pairs(mods))
+    ctx.canaries += 1
+    res = ctx.coq_cases('legacy-tables', REQ, 'fun c : bool => [if c then tables_agree obs_cls obs_mods else tables_agree obs_cls (List.rev obs_mods)]',
+                        ['true', 'false'], 1, preamble=pre)
+    if res[1][0] is False:
+        ctx.canaries_caught += 1
+    ctx.count('legacy-tables', key='tables', nontrivial=True)
+    if not res[0][0]:
+        ctx.disagree('legacy-tables', {'class_paths': cls, 'module_paths': mods}, 'the legacy tables of serializer.py differ from the tables of the model')
     # every target of the tables exists in the tree under test
     for old, new in mods:
         try:
             importlib.import_module(new)
         except Exception as ex:
-            ctx.violate('legacy-paths', {'module': new}, 'target of LEGACY_MODULE_PATHS is not importable: %s' % ex)
+            ctx.violate('legacy-paths', {'module': new, 'legacy': old},
+                        'target of LEGACY_MODULE_PATHS is not importable (%s): classes saved under %s.* are not restored' % (ex, old),
+                        finding_key='C10.legacy-module-' + new)
+    for old, new in cls:
+        m, c = new.split('/')
+        if import_object(m, c) is None:
+            ctx.violate('legacy-paths', {'class': new, 'legacy': old}, 'target of LEGACY_CLASS_PATHS does not exist')
 
 
 # ----------------------------------------------------------------------------------------
@@ -981,7 +1015,7 @@ def light_case(ctx, h, cfg):
     except ShapeError as ex:
         ctx.disagree('light', {'cfg': cfg}, 'unexpected shape: %s' % ex)
         return
-    res = ctx.coq_cases('light', REQ, 'fun c => [light_agree %d (fst c) (snd c)]' % DEPTH, ['(%s, %s)' % (q_hist(mem), q_ehist(e))], 1, preamble=PRE)
+    res = ctx.coq_cases('light', REQ, 'fun c => [light_agree %s (fst c) (snd c)]' % qn(DEPTH), ['(%s, %s)' % (q_hist(mem), q_ehist(e))], 1, preamble=PRE)
     ctx.count('light', key=json.dumps(cfg, sort_keys=True), nontrivial=len(mem['heap']) > 1)
     if not res[0][0]:
         ctx.disagree('light', {'cfg': cfg}, 'light save differs from the model (lighten + encode)')
